@@ -51,6 +51,15 @@ def build_partition(spec):
 
     r = core.rng_for("part", spec["seed"])
     d = {k: domain.gen_result(r, 1) for k in spec["keys"]}
+    if spec["seed"] % 3 == 0:
+        # values that compare equal but are different values (a number as integer, float and boolean, both zeros, a
+        # datetime and a pandas Timestamp of the same instant) under different keys of one partition
+        import datetime as _dt
+
+        import pandas as pd
+
+        d.update({"t int": 1, "t float": 1.0, "t bool": True, "t zero": 0.0, "t negative zero": -0.0,
+                  "t datetime": _dt.datetime(2020, 5, 17, 10, 30), "t timestamp": pd.Timestamp("2020-05-17 10:30:00")})
     if spec["keys"] and r.random() < 0.25:  # a partition nested inside a partition
         inner = {"kind": r.choice(["mem", "disk"]), "keys": ["in1", "in 2"], "seed": spec["seed"] + 1}
         d[spec["keys"][0]] = build_partition(inner)
